@@ -11,12 +11,16 @@
 //	Xxx(i)~overtakes      the same push, made concurrently with the immediately preceding push of another session:
 //	                      it took its sequence number second but reached the queue first (PushChange numbers and
 //	                      enqueues in two steps); enqueue order is the push order the property speaks of
+//	BroadcastBurst        broadcastLoop takes ALL queued changes (>= 2) off the queue back to back while the stream
+//	                      handler is still blocked writing to the connection (its writes stall, then resume)
 //	BroadcastOne          one iteration of broadcastLoop's pendingChanges branch
 //	FullSync / FullSyncErr  standbyLoop step 1 (performFullSync), optionally with a transport fault
 //	Attach                standbyLoop step 2: the real connectToStream runs on its own goroutine; its request
 //	                      (as the standby builds it) reaches the real handleSessionStream
 //	Deliver               the next SSE frame the handler wrote is let through to connectToStream's reader -> handleSSEData
 //	Detach                clean end of the stream: the standby's read ends AND the handler's request context ends
+//	Break                 abrupt end: the standby's read fails with an ERROR (connection cut, io.ErrUnexpectedEOF) and the
+//	                      active's handler ends
 //	DropClientSide        link flap: only the standby's side ends (it goes back to FullSync/Attach); the active's
 //	                      handler for the old stream is still running (half-open connection)
 //	EndOldHandler         the active finally tears down the handler of the half-open old stream
@@ -72,18 +76,42 @@ type msgDesc struct {
 
 // sseWriter is the in-memory ResponseWriter+Flusher the stream handler writes to.
 type sseWriter struct {
-	mu  sync.Mutex
-	hdr http.Header
-	buf bytes.Buffer
+	mu      sync.Mutex
+	hdr     http.Header
+	buf     bytes.Buffer
+	stalled bool          // the connection does not accept data: Write blocks
+	resume  chan struct{} // closed when the stall ends
+}
+
+func (w *sseWriter) stall() {
+	w.mu.Lock()
+	w.stalled, w.resume = true, make(chan struct{})
+	w.mu.Unlock()
+}
+
+func (w *sseWriter) unstall() {
+	w.mu.Lock()
+	if w.stalled {
+		w.stalled = false
+		close(w.resume)
+	}
+	w.mu.Unlock()
 }
 
 func (w *sseWriter) Header() http.Header { return w.hdr }
 func (w *sseWriter) WriteHeader(int)     {}
 func (w *sseWriter) Flush()              {}
 func (w *sseWriter) Write(p []byte) (int, error) {
-	w.mu.Lock()
-	defer w.mu.Unlock()
-	return w.buf.Write(p)
+	for {
+		w.mu.Lock()
+		if !w.stalled {
+			defer w.mu.Unlock()
+			return w.buf.Write(p)
+		}
+		ch := w.resume
+		w.mu.Unlock()
+		<-ch
+	}
 }
 
 // frames returns the complete SSE frames ("...\n\n") written so far.
@@ -321,6 +349,9 @@ func (s *sys) Ops() []string {
 	if len(s.pending) > 0 {
 		ops = append(ops, "BroadcastOne")
 	}
+	if len(s.pending) >= 2 && s.phase == phAttached {
+		ops = append(ops, "BroadcastBurst")
+	}
 	switch s.phase {
 	case phIdle, phSynced:
 		ops = append(ops, "FullSync")
@@ -334,7 +365,7 @@ func (s *sys) Ops() []string {
 		if len(s.undelivered()) > 0 {
 			ops = append(ops, "Deliver")
 		}
-		ops = append(ops, "Detach")
+		ops = append(ops, "Detach", "Break")
 		if s.old == nil {
 			ops = append(ops, "DropClientSide")
 		}
@@ -358,6 +389,25 @@ func (s *sys) push(typ ha.SyncMessageType, i int, sess *ha.SessionState) {
 	default:
 		m.fate = "not-queued" // accepted (nil error) but not put on the queue
 	}
+}
+
+// broadcastOne: one iteration of broadcastLoop's pendingChanges branch.
+func (s *sys) broadcastOne() string {
+	if !s.active.VerifC13BroadcastOne() {
+		harnessError("BroadcastOne: queue empty but mirror has %d", len(s.pending))
+	}
+	m := s.pending[0]
+	s.pending = s.pending[1:]
+	switch s.phase {
+	case phAttached:
+		m.fate = "stream"
+		s.cur.q = append(s.cur.q, m)
+	case phSynced:
+		m.fate = "no-client(gap)"
+	default:
+		m.fate = "no-client(idle)"
+	}
+	return m.fate
 }
 
 func (s *sys) Apply(op string) string {
@@ -408,21 +458,19 @@ func (s *sys) Apply(op string) string {
 		s.push(ha.SyncTypeDelete, i, &ha.SessionState{SessionID: sid(i)}) // recorded with the version it deletes
 		s.ver[sid(i)] = 0
 	case op == "BroadcastOne":
-		if !s.active.VerifC13BroadcastOne() {
-			harnessError("BroadcastOne: queue empty but mirror has %d", len(s.pending))
+		obs = s.broadcastOne()
+	case op == "BroadcastBurst":
+		w := s.cur.w
+		w.stall()
+		n := 0
+		for len(s.pending) > 0 {
+			s.broadcastOne()
+			synctest.Wait() // the handler takes what it can and blocks in Write
+			n++
 		}
-		m := s.pending[0]
-		s.pending = s.pending[1:]
-		switch s.phase {
-		case phAttached:
-			m.fate = "stream"
-			s.cur.q = append(s.cur.q, m)
-		case phSynced:
-			m.fate = "no-client(gap)"
-		default:
-			m.fate = "no-client(idle)"
-		}
-		obs = m.fate
+		w.unstall()
+		synctest.Wait()
+		obs = fmt.Sprintf("burst=%d", n)
 	case op == "FullSync", op == "FullSyncErr":
 		s.rt.failNext = op == "FullSyncErr"
 		err := s.standby.VerifC13FullSync()
@@ -490,13 +538,27 @@ func (s *sys) Apply(op string) string {
 		s.release(l[0])
 		var m ha.SyncMessage
 		if err := json.Unmarshal(data, &m); err != nil {
-			harnessError("cannot decode stream frame: %v", err)
+			// what the active put on the wire is not a message: the change it stood for cannot be applied
+			e := "<none>"
+			if st := s.cur; st.qHead < len(st.q) {
+				x := st.q[st.qHead]
+				st.qHead++
+				e = fmt.Sprintf("push %d (%s %s v%d)", x.n, x.typ, x.id, x.ver)
+			}
+			s.v("S2-apply", "stream", "the frame the active wrote where %s was due is not a decodable message (%v): %.80q", e, err, data)
+			obs = "garbled"
 			break
 		}
 		obs = string(m.Type)
 		s.afterDeliver(&m)
 	case op == "Detach":
 		s.cur.pw.Close()
+		s.cur.srvCancel()
+		synctest.Wait()
+		s.phase = phIdle
+		s.cur = nil
+	case op == "Break":
+		s.cur.pw.CloseWithError(io.ErrUnexpectedEOF)
 		s.cur.srvCancel()
 		synctest.Wait()
 		s.phase = phIdle
